@@ -94,7 +94,11 @@ func (c12) Generate(seed uint64, tier string, index int) any {
 			if g.R.Intn(6) == 0 {
 				m = -1 - g.R.Int63n(1_000_000) // pre-1970
 			}
-			sc.Entries = append(sc.Entries, C12Entry{Name: fmt.Sprintf("f%02d_%s", n, g.NameComponent(true)), Size: 1 + g.R.Int63n(3000), Seed: g.R.Uint64() >> 1,
+			size := 1 + g.R.Int63n(3000)
+			if dst != "diffcontent" && g.R.Intn(10) == 0 {
+				size = 0 // empty files have a size, an mtime and (under -c) a checksum too
+			}
+			sc.Entries = append(sc.Entries, C12Entry{Name: fmt.Sprintf("f%02d_%s", n, g.NameComponent(true)), Size: size, Seed: g.R.Uint64() >> 1,
 				Mtime: m, Dst: dst, DeltaSec: d.sec, DstNs: d.ns})
 		}
 	}
